@@ -91,11 +91,15 @@ func (c *chanSlots) keyJudgementCut(fn *ssa.Function) (core.CutFunc, int, bool) 
 		f, _ := core.FieldOfAddr(cc.Args[0])
 		return core.SameField(f, c.remoteKey)
 	}
-	cut := core.CutAny(
-		core.CutWhere(core.ErrNilGuard(isCheckKey)),
-		core.CutWhere(core.BoolCallGuard(isEqual, true)),
-		core.CutWhere(core.BoolCallGuard(isAccept, true)),
-	)
+	g1, g2, g3 := core.ErrNilGuard(isCheckKey), core.BoolCallGuard(isEqual, true), core.BoolCallGuard(isAccept, true)
+	cut := core.CutWhere(func(cond ssa.Value) int {
+		for _, g := range []core.GuardPred{g1, g2, g3} {
+			if s := g(cond); s != 0 {
+				return s
+			}
+		}
+		return 0
+	})
 	n := core.GuardEdges(fn, cut)
 	// preconditions of the primitive forms
 	ok := true
